@@ -10,7 +10,7 @@ is generated and proved by the reflexive checker Base/TrigMat.mcheck_eq_sound
 (invert, +, copy, on_qubits) are covered by the static theorems of
 Proofs/CircuitOps.v plus traced instances.
 """
-STATIC = ["Base/TrigMat", "C05/Props", "C05/InstMat", "Base/SemProps"]
+STATIC = ["Base/TrigMat", "C05/Props", "C05/InstMat", "Base/SemProps", "C05/PropsComp"]
 import itertools
 import math
 import random
@@ -18,6 +18,7 @@ import random
 import numpy as np
 
 from lib import qtrace, symtrace as st
+from harness import c05_comp
 from lib.qtrace import nat_list
 from lib.symtrace import TraceError, Lin, PI
 from fractions import Fraction
@@ -222,6 +223,98 @@ def circuit_instances():
     return out
 
 
+def flat_queue(c):
+    out = []
+    for g in c.queue:
+        out += list(g.gates) if type(g).__name__ == "FusedGate" else [g]
+    return out
+
+
+def composed_instances():
+    """kernel-checked instances (all parameter values) of COMPOSED circuit operations on a circuit whose members mix
+    dedicated controlled classes, generic controlled_by members (one and two controls), a trainable=False gate and a
+    gate updated after construction; FusedGates are read as their member lists (C05/PropsComp.fused_queue_is_its_member_list)"""
+    from qibo import Circuit
+    gg = qtrace.mod("qibo.gates.gates")
+    th = qtrace.setup_vars(3)
+
+    def mk(m=None, ctrl=True):
+        m = m or {0: 0, 1: 1, 2: 2}
+        c = Circuit(max(m.values()) + 1)
+        cb = (lambda g, *qs: g.controlled_by(*qs)) if ctrl else None
+        c.add(gg.H(m[1]).controlled_by(m[0]))
+        c.add(gg.RX(m[2], th[0], trainable=False))
+        g = gg.fSim(m[1], m[2], PI * Fraction(1, 5), PI * Fraction(1, 7))
+        g.parameters = (th[1], th[2])               # updated after construction, then controlled
+        c.add(g.controlled_by(m[0]))
+        c.add(gg.CRZ(m[2], m[0], th[2]))
+        c.add(gg.SX(m[0]).controlled_by(m[2], m[1]))
+        c.add(gg.U3(m[1], th[0], th[1], th[2]).controlled_by(m[2]))
+        c.add(gg.T(m[2]))
+        return c
+    n = 3
+    cc = lambda gs, k=3: qtrace.circ_coq(list(gs), k)
+    out = []
+    c = mk()
+    out.append(("composed_fuse_invert", f"mcheck_eq {cc(flat_queue(c.fuse(max_qubits=3).invert()))} (MDag {cc(mk().queue)})"))
+    out.append(("composed_fuse2_invert", f"mcheck_eq {cc(flat_queue(mk().fuse(max_qubits=2).invert()))} (MDag {cc(mk().queue)})"))
+    out.append(("composed_invert_fuse", f"mcheck_eq {cc(flat_queue(mk().invert().fuse(max_qubits=3)))} (MDag {cc(mk().queue)})"))
+    fgs = [g for g in mk().fuse(max_qubits=3).queue if type(g).__name__ == "FusedGate"]
+    for i, fg in enumerate(fgs[:2]):
+        out.append((f"composed_fusedgate_dagger_{i}", f"mcheck_eq {cc(fg.dagger().gates)} (MDag {cc(fg.gates)})"))
+    c1, c2 = mk(), mk().invert()
+    out.append(("composed_add_invert", f"mcheck_eq {cc((c1 + c2).invert().queue)} (MMul (MDag {cc(mk().queue)}) (MDag {cc(mk().invert().queue)}))"))
+    out.append(("composed_copy_deep_invert", f"mcheck_eq {cc(mk().copy(deep=True).invert().queue)} (MDag {cc(mk().queue)})"))
+    big = Circuit(4)
+    big.add(mk().on_qubits(3, 0, 2))
+    out.append(("composed_on_qubits_invert", f"mcheck_eq {cc(big.invert().queue, 4)} (MDag {cc(mk({0: 3, 1: 0, 2: 2}).queue, 4)})"))
+    out.append(("composed_on_qubits_fuse_invert", f"mcheck_eq {cc(flat_queue(big.fuse(max_qubits=3).invert()), 4)} (MDag {cc(mk({0: 3, 1: 0, 2: 2}).queue, 4)})"))
+    return out
+
+
+def compositions(run, rng, ncases):
+    """random sequences (length 2-4) of invert / + / copy / on_qubits / fuse on mixed circuits, against the Coq model
+    C05/CompModel.eval (structure, exact) and the prescribed operator (numpy, per member and whole circuit)"""
+    from lib import vcore
+    for t in vcore.props_theorems("C05/PropsComp.v"):
+        run.oblige(t, True, "static-theorem")
+    okpa, pa = vcore.static_assumptions("C05/PropsComp")
+    run.notes["print_assumptions_comp"] = pa
+    cases, exprs, pending, nfound = [], [], [], 0
+    seen = set()
+
+    def report(case, kind, detail, what):
+        nonlocal nfound
+        key = f"compose:{c05_comp.chain(case['expr'])}:{kind}" + (f":{detail}" if detail else "")
+        if key in seen or nfound >= 8:
+            return
+        seen.add(key)
+        nfound += 1
+        run.refuted.append("composition_" + key)
+        run.find(key, what, {"compose": case})
+    for i in range(ncases):
+        case = c05_comp.make_case(rng, i)
+        txt, probs, shape = c05_comp.run_case(case)
+        run.case(["compose", c05_comp.chain(case["expr"]), [[(s["cls"], len(s["controls"]), s["trainable"], s["updated"]) for s in sp] for sp in case["specs"]]])
+        if i % 25 == 0:
+            run.sample({"composition": c05_comp.chain(case["expr"]), "sources": [[s["cls"] + (".controlled_by" if s["controls"] else "") for s in sp] for sp in case["specs"]]})
+        for kind, detail, what in probs:
+            report(case, kind, detail, what)
+        if txt is not None:
+            exprs.append(f"show {txt}")
+            pending.append((case, shape))
+    vals = run.coq_eval("C05_comp.v", c05_comp.MODEL_HEADER, exprs, timeout=600)
+    if vals is None:
+        run.oblige("correspondence_composed_circuit_operations", False, "correspondence")
+        run.find("coq:C05_comp", "model evaluation of the composed operations does not compile", concrete=False)
+        return
+    for (case, shape), v in zip(pending, vals):
+        for kind, detail, what in c05_comp.compare_structure(v, shape):
+            report(case, kind, detail, what)
+    run.oblige("correspondence_composed_circuit_operations", nfound == 0, "correspondence")
+    run.notes["compositions"] = len(cases) or ncases
+
+
 def key_of(recipe):
     op, label, qubits, extra, qmap, update = recipe
     return f"{op}:{label}" + (":ctrl" if extra and op != "controlled_by" else "") + (":updated" if update else "")
@@ -308,10 +401,12 @@ def main(run):
     # ---- circuit-level instances (invert, +, copy, on_qubits) on a mixed symbolic circuit
     with qtrace.patched():
         qtrace.fresh_sym_backend()
-        for nm, term in circuit_instances():
+        for nm, term in circuit_instances() + composed_instances():
             items.append((nm, term))
             meta[nm] = None
             run.case(["circuit-op", nm])
+    # ---- compositions of circuit-level operations (Coq model + prescribed operator; concrete inputs)
+    compositions(run, random.Random(run.seed + 505), 260 if run.tier == "quick" else 2500)
     # ---- translator cross-check (numeric): traced matrices vs real gate.matrix()
     tr_bad = crosscheck_tracer(run, rng)
     # ---- operations that raised on gates documented to accept them
@@ -371,7 +466,9 @@ def main(run):
 
 
 RULE = ("one case per (gate class x operation x placement x controls x updated-after-construction); every class of "
-        "gates.py is enumerated; placements are non-ascending and non-adjacent; distinct = distinct recipe")
+        "gates.py is enumerated; placements are non-ascending and non-adjacent; distinct = distinct recipe; "
+        "compositions: 10 fixed + random sequences of 2-4 circuit operations (invert, +, copy, on_qubits, fuse) on two source "
+        "circuits of 3-6 gates (every class, generic controls, trainable=False, updated, Unitary), distinct = distinct (sequence, sources)")
 
 
 def crosscheck_tracer(run, rng):
@@ -403,6 +500,18 @@ def crosscheck_tracer(run, rng):
 
 def replay(run, data):
     rp = data["replay"]
+    if "compose" in rp:
+        case = rp["compose"]
+        txt, probs, shape = c05_comp.run_case(case)
+        if txt is not None:
+            vals = run.coq_eval("C05_comp_replay.v", c05_comp.MODEL_HEADER, [f"show {txt}"])
+            if vals:
+                probs = probs + c05_comp.compare_structure(vals[0], shape)
+        for kind, detail, what in probs:
+            print("replay:", kind, detail, what)
+        if probs:
+            run.find(data["key"], probs[0][2], rp)
+        return run.finish(rule="replay of one recorded composition")
     rec = rp.get("recipe")
     rng = random.Random(0)
     specs = {s[0]: s for s in gate_specs()}
